@@ -167,7 +167,7 @@ func checkC06(rep *Report, pool *DriverPool, c *CCase) {
 		}
 	}
 	o, h := readContainer(w.Set.API, !fromStd, out, dict, c.Reads, c.RSeed)
-	rep.Digest(c.ID, o.digestParts()...)
+	rep.DigestR(c.ID, &o)
 	if o.Panic != "" || o.Hang {
 		rep.Violate("panic", "", o.Panic, c)
 		return
@@ -308,7 +308,7 @@ func checkC07(rep *Report, pool *DriverPool, c *CCase) {
 	rep.Eval(fmt.Sprintf("%s|%s|%d|%s|%v|%v|%d", api, w.Datas[0].Gen, w.Datas[0].N, kind, c.Flip, c.Subst, c.Cut), c.sample())
 	rep.Count("kind:" + kind + "/" + api)
 	rep.Count("result:" + o.Err + o.CtorErr)
-	rep.Digest(c.ID, o.digestParts()...)
+	rep.DigestR(c.ID, &o)
 	if o.Panic != "" || o.Hang {
 		rep.Violate("panic-or-hang", "", o.Panic, c)
 		return
@@ -507,7 +507,7 @@ func checkC08(rep *Report, pool *DriverPool, c *CCase) {
 	// default mode: concatenation then EOF (no trailing data in this mode)
 	if len(trail) == 0 {
 		o := RunR("gzip", false, all, nil, SrcSpec{Kind: "bufio", Buf: c.Buf, Chunk: "rand", Seed: c.RSeed, Term: "eof"}, "new", nil, c.Reads, c.RSeed, 0)
-		rep.Digest(c.ID, o.digestParts()...)
+		rep.DigestR(c.ID, &o)
 		if o.Panic != "" || o.Hang || o.CtorErr != "" || o.Err != "EOF" || !bytes.Equal(o.Bytes, concat) {
 			rep.Violate("concatenation", "", fmt.Sprintf("default mode: ctor=%q panic=%q %d bytes, %s; expected the %d bytes of all members then EOF (first difference %d)", o.CtorErr, o.Panic, len(o.Bytes), o.Err, len(concat), firstDiff(o.Bytes, concat)), c)
 			return
